@@ -4,7 +4,7 @@
     Each op is one atomic step: in the code every one of them runs under c.mu / m.mu
     (lock structure: C07).  Composes Model/Decode.v (payload decoding) and Model/Fqdn.v
     (listener-name binding).  Definitions only.  (C01-C04, C10, C14, C16-C19) *)
-From Xds Require Import Model.Base Model.Fqdn Model.Proto Model.Decode.
+From Xds Require Import Model.Base Model.Fqdn Model.Proto Model.Decode Model.Pick Model.Route Model.Mw.
 Open Scope string_scope.
 
 Inductive rtype := TLis | TRc | TCl | TEp | TNt.
@@ -175,6 +175,7 @@ Inductive lookup_result :=
 | LBoth                 (* value and error *)
 | LPanic
 | LHang                 (* did not return *)
+| LResolved (r : option (list (string * N)))   (* result of XDSResolver.Resolve: instances (address, weight) or an error *)
 | LOther.               (* a value of another kind *)
 
 Definition touch (s : state) (t : rtype) (n : string) : state :=
@@ -243,6 +244,7 @@ Inductive op :=
 | OSubscribe (t : rtype) (n : string)                       (* start-up subscription *)
 | OLookup (t : rtype) (n : string)
 | OLookups (t : rtype) (ns : list string)                   (* a burst of lookups, observed once at the end *)
+| OResolve (desc : string)                                   (* XDSResolver.Resolve: cluster lookup, then endpoint lookup if needed *)
 | OLookupUnknown                                            (* a kind the manager does not know *)
 | OResp (version nonce : string) (p : payload)
 | ORespUnknown                                              (* a type url the client does not know *)
@@ -263,6 +265,19 @@ Definition step (c : scfg) (o : oracle) (s : state) (x : op) : state * out :=
       let '(s1, rq, r) := fold_left (fun acc n => let '(sa, rqa, _) := acc in let '(sb, rqb, rb) := lookup sa t n in (sb, (rqa ++ rqb)%list, rb))
                                     ns (s, [], LMiss) in
       (s1, {| o_reqs := rq; o_lookup := Some r; o_updates := [] |})
+  | OResolve d =>
+      let '(s1, rq1, r1) := lookup s TCl d in
+      match r1 with
+      | LHit (VCl c) =>
+          match c_inline c with
+          | Some _ => (s1, {| o_reqs := rq1; o_lookup := Some (LResolved (resolve (GOk c) (fun _ => GErr))); o_updates := [] |})
+          | None =>
+              let '(s2, rq2, r2) := lookup s1 TEp (c_epname c) in
+              let eds := fun _ : string => match r2 with LHit (VEp e) => GOk e | _ => GErr end in
+              (s2, {| o_reqs := (rq1 ++ rq2)%list; o_lookup := Some (LResolved (resolve (GOk c) eds)); o_updates := [] |})
+          end
+      | _ => (s1, {| o_reqs := rq1; o_lookup := Some (LResolved None); o_updates := [] |})
+      end
   | OLookupUnknown => (s, {| o_reqs := []; o_lookup := Some LMiss; o_updates := [] |})
   | OResp v n p => let '(s1, rq, ups) := handle_resp c o s v n p in (s1, {| o_reqs := rq; o_lookup := None; o_updates := ups |})
   | ORespUnknown => (s, no_out)
